@@ -105,7 +105,7 @@ def spec_inputs(P, spec):
         for j, b in enumerate(T):
             if j < i:
                 continue
-            key = '%s-%s' % (a, b)
+            key = '%s-%s' % (a, b) if '%s-%s' % (a, b) in spec['omega'] else '%s-%s' % (b, a)
             w = np.asarray(systems.make_omega(spec['omega'][key], k).calculate(np.array(k)), dtype=float) * np.ones(n)
             Om[:, i, j] = Om[:, j, i] = w * site[i, j]
             U = systems.make_potential(spec['pot'][key])
@@ -152,7 +152,7 @@ def evaluate(P, terms=None, max_len=2100, spec=None):
         kind = CANON.get(type(clo).__name__)
         spec_flag = None
         if spec is not None:                       # which closure the user asked for, and with which flag
-            cs = spec['clo']['%s-%s' % (T[i], T[j])]
+            cs = spec['clo'].get('%s-%s' % (T[i], T[j]), spec['clo'].get('%s-%s' % (T[j], T[i])))
             kind, spec_flag = CANON.get(cs[0], cs[0]), bool(cs[1]) if len(cs) > 1 else False
         if kind is None:
             continue
